@@ -63,6 +63,13 @@ where
       let s_complete = s.clone();
       let s_alive = s.clone();
 
+      // live events are held back until the history has been replayed: what arrives
+      // meanwhile is already part of the history and is replayed from there
+      let ready = Arc::new(RwLock::new(false));
+      let ready_next = Arc::clone(&ready);
+      let ready_error = Arc::clone(&ready);
+      let ready_complete = Arc::clone(&ready);
+
       *sbsc.write().unwrap() = Some(
         utils::ready_set_go(
           move || {
@@ -80,14 +87,28 @@ where
               s.complete();
               return;
             }
+            *ready.write().unwrap() = true;
           },
           subject.observable(),
         )
         .subscribe(
-          move |x| s_next.next(x),
-          move |e| s_error.error(e),
+          move |x| {
+            let ready = *ready_next.read().unwrap();
+            if ready {
+              s_next.next(x);
+            }
+          },
+          move |e| {
+            let ready = *ready_error.read().unwrap();
+            if ready {
+              s_error.error(e);
+            }
+          },
           move || {
-            s_complete.complete();
+            let ready = *ready_complete.read().unwrap();
+            if ready {
+              s_complete.complete();
+            }
           },
         ),
       );
